@@ -12,7 +12,7 @@ namespace Tcp
 inductive Call where
   | lock | unlock | deferUnlock          -- oneWayClientSendLock
   | makeData | send | flush | close | connect | sendDirect
-  | queuePut | queueGetTimeout | queueGetNoWait
+  | queuePut | queueGetTimeout | queueGetNoWait | queueGetCapacity | queueSetCapacity
   | dial | newWriter | connClose | setDeadline | bufWrite | bufFlush
   deriving DecidableEq, Repr
 
@@ -24,6 +24,9 @@ structure Facts where
   directCloseOnFlushErr : Bool
   /-- call sequence of process() -/
   process : List Call
+  /-- call sequence of ApplyConfig; its Close/Connect lie between Lock and Unlock of the send lock -/
+  applyConfig : List Call
+  applyConfigLocked : Bool
   /-- every Connect call in process() lies between Lock and Unlock of the send lock -/
   processConnectLocked : Bool
   /-- process(): Close after a failed send and after a failed Flush -/
@@ -52,12 +55,14 @@ structure Facts where
   headerVer : Nat
   deriving DecidableEq, Repr
 
-/-- the shape of the source the model was written against (after fix-D42) -/
+/-- the shape of the source the model was written against (after fix-D42 and fix-D70) -/
 def assumed : Facts :=
   { sendDirect := [.lock, .deferUnlock, .makeData, .send, .close, .flush]
     directCloseOnSendErr := true
     directCloseOnFlushErr := false
-    process := [.lock, .connect, .unlock, .queueGetTimeout, .makeData, .send, .close, .flush, .close]
+    process := [.lock, .connect, .unlock, .queueGetTimeout, .lock, .makeData, .send, .close, .flush, .close, .unlock]
+    applyConfig := [.lock, .close, .connect, .unlock, .queueGetCapacity, .queueSetCapacity]
+    applyConfigLocked := true
     processConnectLocked := true
     processCloseOnSendErr := true
     processCloseOnFlushErr := true
@@ -80,9 +85,5 @@ def assumed : Facts :=
 def Facts.sendLocked (f : Facts) : Bool :=
   f.sendDirect.take 2 == [.lock, .deferUnlock] &&
   [Call.makeData, .send, .flush].all (fun c => (f.sendDirect.drop 2).contains c)
-
-/-- the model configuration the source text corresponds to -/
-def cfgOf (f : Facts) (useQueue : Bool) (cap : Nat) : Cfg :=
-  { useQueue := useQueue, cap := cap, sendLocked := f.sendLocked, bgLocked := f.processConnectLocked }
 
 end Tcp
